@@ -15,7 +15,9 @@
 // IntermediateRoot/Commit root against the yellow-paper root of the model content
 // computed by internal/ref/reftrie; reopened states and copies read back and
 // RawDump to the model; a state set aside at a Copy keeps reading as it did; an
-// earlier committed root still opens to its content; the final content rebuilt
+// earlier committed root still opens to its content; a second, unread handle
+// opened on the same root from the same caching database stays alive while the
+// case continues and must keep reading (and hashing) as the committed content; the final content rebuilt
 // by an unrelated history on a fresh database has the same root.
 //
 // The only place where the model follows the implementation is the fate, at a
